@@ -692,11 +692,14 @@ def cpu_stats():
 
 def _cpu_get_cpuinfo_freq():
     """Return current CPU frequency from cpuinfo if available."""
+    # "cpu MHz : N"; s390x has 2 lines per CPU: "cpu MHz dynamic : N"
+    # (current) and "cpu MHz static : N" (nominal, not the current one)
+    search = re.compile(rb'cpu mhz(\s+dynamic)?\s*:', re.IGNORECASE)
     with open_binary(f"{get_procfs_path()}/cpuinfo") as f:
         return [
             float(line.split(b':', 1)[1])
             for line in f
-            if line.lower().startswith(b'cpu mhz')
+            if search.match(line)
         ]
 
 
